@@ -20,15 +20,18 @@ LEVEL_TEXT = ("Machine-checked theorems over the model of convert_track for the 
               "streams, all inputs): for every event list whose bracket structure consists of rests/notes/ties (0..65535 ticks), slur and commands, subroutine calls, nested counted "
               "loops with any number of breaks per loop, on both sides of a depth-0 loop point, in the three shapes end_hook produces, at any offset of a chunk: the emitted stream ends "
               "with its terminator, the instruction walker accepts it (balanced loops, break targets, jump target on a depth-0 boundary of the stream) and the interpreter never stops "
-              "with badRead/badOp/noLength/loopUnderflow. Third layer: C03_song_wellformed_partial — for every song of the plain fragment (see C02) and every channel track in the "
+              "with badRead/badOp/noLength/loopUnderflow. Third layer: C03_song_wellformed_partial — for every song of the fragment (see C02; since round 4 with drum mode: notes in drum "
+              "mode through their routines, DRUM_MODE switched at the top level of channel tracks, subroutines called in drum mode) and every channel track in the "
               "domain: the walker accepts the stream the track table points at, the interpreter never reads outside / meets an unknown opcode / a missing length / an empty loop stack "
               "through all calls and returns however often the loop-back is followed, and a finished run with the jump followed twice passes >= 1 tick of note or rest time between the "
               "loop marks. The whole-chunk statement (C03_full_statement: every stream incl. unreferenced and drum/macro ones passes the walker, every loop-back round passes >= 1 "
               "tick) outside that fragment is decided per case by Spec/SeqWf + Spec/SeqInterp run on the REAL bytes of generated and degenerate songs; the model reproduces the real chunk "
               "byte for byte; the judge marks the cases that are instances of the whole-song theorem (ok proved-fragment).")
 LEVEL_NOTE = ("Trusted: Lean kernel; Model/MdsCodec+MdsConv+MdsFile (agreement with mdsdrv.cpp by differential testing); Spec/SeqWf and Spec/SeqInterp (reconstructed MDSDRV format). "
-              "Proved part = address arithmetic of the codec + per-stream well-formedness/safety at any offset + whole songs of the plain fragment (partial: chunk < 64 KiB, <= 1 loop "
-              "point per channel track, called tracks without loop point, no pitch envelope/macro track/drum mode/platform command, loop point at depth 0); drum routines, macro "
+              "Proved part = address arithmetic of the codec + per-stream well-formedness/safety at any offset + whole songs of the fragment, drum mode included (partial: chunk < 64 KiB, "
+              "<= 1 loop point per channel track, called tracks without loop point / drum-mode switch, drum-mode switches outside loops, routine tracks = timeless commands before "
+              "their first note, loop section ending in the drum state it starts in, no pitch envelope/macro track/platform command, loop point at depth 0); the walker on "
+              "unreferenced / routine streams themselves, macro "
               "tracks, platform commands and songs outside the domain = oracle on real bytes. Known finding: a loop point inside a counted loop is accepted and compiled to a jump into "
               "the loop (D21).")
 RULE = ("the C02 generators (adjacency sweep + structured songs) plus a degenerate family: empty track, loop point last, loop point followed only by zero-time commands, "
@@ -115,6 +118,8 @@ def finding_key(case, impl, judge):
         return "crash:" + (m.group(1) if m else "unknown")
     if segno_in_loop(case.req):
         return "segno-in-loop"
+    if c02.drum_dynamic(case.req):
+        return "drum-mode-dynamic"
     if "spans no note or rest time" in judge:
         return "zero-time-loop"
     m = re.search(r"Bad\.(\w+)|Stop\.(\w+)", judge)
